@@ -125,9 +125,16 @@ func versionTemplates(eco, size string) []string {
 		m = expandAll("{d}.{d}.{d}(|"+semverPre[1:len(semverPre)-1]+")(|+{n})", "{d}{d}.{d}.{d}", "{d}.{d}")
 		l = expandAll("{d}.{d}.{d}(|"+semverPreL[1:len(semverPreL)-1]+"|-{n}..{n}|-.{n})(|+{n}|+{i}.{i})", "{d}{d}.{d}{d}.{d}{d}(|-{n}.{n})", "{d}.{d}")
 	case "golang":
+		ts14 := "20{d}{d}0{D}1{d}1{d}{[0-5]}{d}{[0-5]}{d}" // a valid 14-digit timestamp shape
+		pseudo := []string{"v{d}.0.0-" + ts14 + "-{h}{h}{h}{h}{h}{h}{h}{h}{h}{h}{h}{h}", "v{d}.{d}.{d}-0." + ts14 + "-{h}{h}{h}{h}{h}{h}{h}{h}{h}{h}{h}{h}", "v{d}.{d}.{d}-{l}{l}.0." + ts14 + "-{h}{h}{h}{h}{h}{h}{h}{h}{h}{h}{h}{h}"}
 		s = expandAll("v{d}.{d}.{d}(|"+semverPre[1:len(semverPre)-1]+")", "v{d}{d}.{d}.{d}", "{d}.{d}.{d}", "v{d}.{d}.{d}+{n}")
 		m = expandAll("(v|){d}.{d}.{d}(|"+semverPre[1:len(semverPre)-1]+")(|+{n})", "v{d}{d}.{d}.{d}", "v{d}.{d}.{d}+incompatible")
 		l = expandAll("(v|){d}.{d}.{d}(|"+semverPreL[1:len(semverPreL)-1]+")(|+{n}|+incompatible)", "v{d}{d}.{d}{d}.{d}{d}(|-{n}.{n})")
+		// pseudo-versions (three forms), with a timestamp shape that is always a valid date and, in
+		// the thorough tier, with 14 free digits (validity of the date is then part of the path)
+		s = append(s, pseudo[1])
+		m = append(m, pseudo[0], pseudo[1])
+		l = append(l, pseudo[0], pseudo[1], pseudo[2], "v{d}.{d}.{d}-0.{d}{d}{d}{d}{d}{d}{d}{d}{d}{d}{d}{d}{d}{d}-{h}{h}{h}{h}{h}{h}{h}{h}{h}{h}{h}{h}")
 	case "nuget":
 		s = expandAll("{d}.{d}.{d}(|-{n}|-{n}.{n}|-{i}{i})", "{d}", "{d}.{d}", "{d}.{d}.{d}.{d}", "{d}{d}.{d}.{d}")
 		m = expandAll("(|v){d}(|.{d}|.{d}.{d}|.{d}.{d}.{d})(|-{n}|-{n}.{n}|-{i}{i}|-{n}{n}.{d})(|+{n})", "{d}{d}.{d}{d}")
@@ -199,5 +206,43 @@ func versionTemplates(eco, size string) []string {
 		out = l
 	}
 	sort.Strings(out)
+	return out
+}
+
+// mustTemplates: shapes that thinning must never drop (short spellings that compare equal to
+// longer ones, and shapes with a code path of their own).
+func mustTemplates(eco string) []string {
+	switch eco {
+	case "golang":
+		return []string{"v{d}.{d}.{d}-0.20{d}{d}0{D}1{d}1{d}{[0-5]}{d}{[0-5]}{d}-{h}{h}{h}{h}{h}{h}{h}{h}{h}{h}{h}{h}"}
+	case "conan":
+		return []string{"{[0-9a-z]}", "{d}.{d}", "{d}.{d}.{d}"}
+	case "gem", "maven", "pypi", "debian", "rpm", "alpine", "gentoo", "alpm", "nuget", "composer":
+		return []string{"{d}", "{d}.{d}", "{d}.{d}.{d}"}
+	case "cran":
+		return []string{"{d}.{d}", "{d}.{d}.{d}"}
+	case "hex":
+		return []string{"{d}.{d}", "{d}.{d}.{d}"}
+	}
+	return []string{"{d}.{d}.{d}"}
+}
+
+// pick returns the must-have templates of the ecosystem (those that occur in the pool or are
+// accepted shapes) followed by n evenly spaced templates of the pool.
+func pick(eco string, pool []string, n int) []string {
+	seen := map[string]bool{}
+	var out []string
+	for _, t := range mustTemplates(eco) {
+		if !seen[t] {
+			seen[t] = true
+			out = append(out, t)
+		}
+	}
+	for _, t := range thin(pool, n) {
+		if !seen[t] {
+			seen[t] = true
+			out = append(out, t)
+		}
+	}
 	return out
 }
